@@ -255,6 +255,24 @@ pub fn profile(name: &str) -> Option<Profile> {
             sinks: [6, 2, 2, 1],
             ..BASE
         },
+        // big buffers and long lines: more than 255 bytes / characters / continuation bytes / tokens
+        "long" => Profile {
+            name: "long",
+            units: (30, 120),
+            cmd_caps: [0, 0, 0, 0, 0, 1],
+            hist_caps: [0, 0, 0, 1, 2, 6],
+            m_fill: 40,
+            w_left: 20,
+            w_right: 8,
+            w_bs: 8,
+            w_enter: 6,
+            w_up: 6,
+            m_type_line: 3,
+            m_partial_tab: 2,
+            p_write: 25,
+            p_prompt: 15,
+            ..BASE
+        },
         // few, very long sessions: hundreds of submissions, the history wraps many times
         "marathon" => Profile {
             name: "marathon",
@@ -291,7 +309,7 @@ pub fn profile(name: &str) -> Option<Profile> {
 }
 
 pub const PROFILES: &[&str] = &[
-    "mix", "decode", "edit", "term", "hist", "tab", "frame", "flush", "rxfault", "faultrand", "tiny", "marathon",
+    "mix", "decode", "edit", "term", "hist", "tab", "frame", "flush", "rxfault", "faultrand", "tiny", "marathon", "long",
 ];
 
 const MULTI: &[char] = &['é', 'ж', 'λ', 'ß', '日', '本', '€', '佐', '😀', '𑿁', 'Ю', '字'];
@@ -312,7 +330,7 @@ fn cap_from(rng: &mut Rng, w: &[u32; 6]) -> usize {
         2 => rng.range(2, 8),
         3 => rng.range(9, 24),
         4 => rng.range(25, 64),
-        _ => *rng.pick(&[80usize, 256, 500]),
+        _ => *rng.pick(&[80usize, 256, 300, 500, 700, 1200]),
     }
 }
 
@@ -620,16 +638,36 @@ impl<'a> Gen<'a> {
                 }
             }
             21 => {
-                // fill the buffer and a bit more (long lines - beyond 255 bytes - only now and then)
-                let limit = if self.rng.chance(1, 4) { 600 } else { 70 };
+                // fill the buffer and a bit more (long lines - beyond 255 bytes - only now and then);
+                // three styles: mostly ASCII, mostly multi-byte, one-character words
+                let limit = if self.rng.chance(1, 4) || self.p.name == "long" { 1300 } else { 70 };
                 let n = (self.cmd_cap + 3).min(limit);
-                for _ in 0..n {
-                    if self.rng.chance(1, 4) {
-                        let c = *self.rng.pick(MULTI);
-                        self.unit(enc(c));
-                    } else {
-                        let b = *self.rng.pick(LETTERS);
-                        self.unit(vec![b]);
+                let style = self.rng.below(3);
+                let mut i = 0;
+                while i < n {
+                    match style {
+                        0 => {
+                            if self.rng.chance(1, 4) {
+                                let c = *self.rng.pick(MULTI);
+                                i += c.len_utf8();
+                                self.unit(enc(c));
+                            } else {
+                                let b = *self.rng.pick(LETTERS);
+                                i += 1;
+                                self.unit(vec![b]);
+                            }
+                        }
+                        1 => {
+                            let c = *self.rng.pick(MULTI);
+                            i += c.len_utf8();
+                            self.unit(enc(c));
+                        }
+                        _ => {
+                            let b = *self.rng.pick(b"abcx-");
+                            self.unit(vec![b]);
+                            self.unit(vec![b' ']);
+                            i += 2;
+                        }
                     }
                 }
             }
@@ -811,7 +849,8 @@ impl<'a> Gen<'a> {
                     _ => Ret::Parse,
                 };
                 let prompt_first = self.rng.chance(1, 3);
-                Ev::Handler(HScript { calls, prompt, ret, prompt_first })
+                let pre_prompt = if self.rng.chance(1, 8) { Some(self.rng.below(PROMPTS.len())) } else { None };
+                Ev::Handler(HScript { calls, prompt, ret, prompt_first, pre_prompt })
             }
         })
     }
@@ -892,6 +931,7 @@ pub fn generate(profile: &Profile, seed: u64) -> Trace {
             prompt: None,
             ret: Ret::Parse,
             prompt_first: false,
+            pre_prompt: None,
         })));
     }
     let mut guard = 0;
@@ -1002,6 +1042,7 @@ pub fn scenario(seed: u64, kind: usize) -> Trace {
         prompt: if rng.chance(1, 4) { Some(rng.below(PROMPTS.len())) } else { None },
         ret: Ret::Parse,
         prompt_first: rng.chance(1, 2),
+        pre_prompt: if rng.chance(1, 4) { Some(rng.below(PROMPTS.len())) } else { None },
     };
     match kind % N_SCENARIO_KINDS {
         0 => {
@@ -1102,7 +1143,7 @@ pub fn scenario(seed: u64, kind: usize) -> Trace {
             let calls: Vec<WCall> = WKind::ALL.iter().map(|k| WCall { kind: *k, text: rng.pick(OUT_TEXTS).to_string() }).collect();
             push_str(&mut ev, "ab");
             ev.push(Event::new(Ev::Write(calls.clone(), Ret::Ok)));
-            ev.push(Event::new(Ev::Handler(HScript { calls, prompt: None, ret: Ret::Parse, prompt_first: false })));
+            ev.push(Event::new(Ev::Handler(HScript { calls, prompt: None, ret: Ret::Parse, prompt_first: false, pre_prompt: None })));
             push_str(&mut ev, "\r");
         }
         13 => {
@@ -1112,6 +1153,7 @@ pub fn scenario(seed: u64, kind: usize) -> Trace {
                 prompt: Some(rng.below(PROMPTS.len())),
                 ret: Ret::Parse,
                 prompt_first: true,
+                pre_prompt: Some(rng.below(PROMPTS.len())),
             })));
             push_str(&mut ev, "nosuch 1\r");
             push_str(&mut ev, *rng.pick(&others[..]));
